@@ -1519,10 +1519,13 @@ class TT():
             result = torchtt._extras.reshape(self, shape_new, eps, rmax)
         else:
             for core in self.cores:
-                if int(math.log(core.shape[1], mode_size)) > 1:
+                if core.shape[1] != mode_size**int(round(math.log(core.shape[1], mode_size))):
+                    raise ShapeMismatch('Reshaping error: check if the dimensions are powers of the desired mode size:\r\ncore size '+str(
+                        list(core.shape))+' cannot be reshaped.')
+                if int(round(math.log(core.shape[1], mode_size))) > 1:
                     Nnew = [core.shape[0]*mode_size]+[mode_size] * \
-                        (int(
-                            math.log(core.shape[1], mode_size))-2)+[core.shape[2]*mode_size]
+                        (int(round(
+                            math.log(core.shape[1], mode_size)))-2)+[core.shape[2]*mode_size]
                     try:
                         core = tn.reshape(core, Nnew)
                     except:
